@@ -33,6 +33,12 @@ DIRECTIONS = {
          "text with legal but unusual content; the interplay of two public methods each correct alone.",
 }
 
+if os.environ.get("ROUND_MODE") == "ordinary":
+    DIRECTIONS["B"] = ("a SECOND ordinary regression of the same everyday kind as A (off-by-one, swapped arguments, wrong variable of "
+                       "two similar ones, dropped branch, wrong default, min/max or start/end confused, a condition negated or "
+                       "weakened, a missing copy), but in a DIFFERENT file or class than A and, if at all possible, in a public "
+                       "method or helper that none of the earlier changes touched. Prefer code that ordinary callers reach often.")
+
 for p in props:
     pid = p["id"]
     wt = "%s/%s" % (rd, pid)
